@@ -28,6 +28,8 @@ def main():
     rc, out = sh(["git", "-C", "/repo", "worktree", "add", "-q", "--detach", wt, "HEAD"])
     if rc == 0:
         rc, out = sh(["git", "-C", wt, "apply", os.path.join(d, "patch.diff")])
+        if rc != 0 and os.path.exists(os.path.join(d, "patch.rebased.diff")):
+            rc, out = sh(["git", "-C", wt, "apply", os.path.join(d, "patch.rebased.diff")])
     if rc != 0:
         print("stale patch:", out[-300:])
         sh(["git", "-C", "/repo", "worktree", "remove", "--force", wt])
